@@ -1622,8 +1622,12 @@ func zipAllInnerSubscriptions[T any](outerCtx context.Context, sources []Observa
 		// free memory
 		mu.Lock()
 
-		completed = nil
-		values = nil
+		// Keep the slices themselves: a notification of a source that is still
+		// in flight indexes them (under mu) after the teardown ran.
+		for i := range values {
+			completed[i] = true
+			values[i] = nil
+		}
 
 		mu.Unlock()
 	}
